@@ -79,3 +79,17 @@ Check deser_total :
   deserialize_struct defs enums name bs <> Err DOutOfFuel
   /\ (forall t fuel, fits rk t fuel -> deser_value defs enums fuel t bs <> Err DOutOfFuel).
 Print Assumptions deser_total.
+
+(** The encoding is injective and prefix-free on well-typed struct values. *)
+Theorem ser_injective_prefix_free : ser_injective_prefix_free_stmt.
+Proof. exact ser_injective_prefix_free_proof. Qed.
+Check ser_injective_prefix_free :
+  forall (defs : struct_defs) (enums : enum_defs) (rk : ident -> nat) (name : ident)
+         (f1 f2 : list (ident * value)) (e1 e2 : list N),
+  acyclic defs rk ->
+  has_type defs enums (VStruct name f1) (TStruct name) ->
+  has_type defs enums (VStruct name f2) (TStruct name) ->
+  serialize_struct defs name f1 = Ok e1 -> serialize_struct defs name f2 = Ok e2 ->
+  (e1 = e2 -> f1 = f2)
+  /\ (forall rest, e2 = e1 ++ rest -> rest = [] /\ f1 = f2).
+Print Assumptions ser_injective_prefix_free.
